@@ -170,6 +170,12 @@ def _annotate(spec, classes):
         origin = _cls(rest[0], classes)
         args = tuple(annotate(r, classes) for r in rest[1:])
         return origin[args if len(args) != 1 else args[0]]
+    if op == "tgen":
+        # the typing spelling of a parametrised generic (typing.List[...] for list[...], typing.Type[...] for type[...])
+        alias = {"list": typing.List, "dict": typing.Dict, "type": typing.Type, "Iterable": typing.Iterable, "Sequence": typing.Sequence,
+                 "set": typing.Set}[rest[0]]
+        args = tuple(annotate(r, classes) for r in rest[1:])
+        return alias[args if len(args) != 1 else args[0]]
     if op == "tuple":
         return tuple[tuple(annotate(r, classes) for r in rest)] if rest else tuple[()]
     if op == "regexp":
